@@ -3,8 +3,6 @@
 package file
 
 import (
-	"errors"
-	"fmt"
 	"go/ast"
 	"go/parser"
 	"go/token"
@@ -359,17 +357,33 @@ func c11ConfigFolders(t *testing.T) []string {
 	return folders
 }
 
-// c11StartupOrder checks the start-up wiring in ../../manager.go: ClearFolders over ConfigFolders
-// with the standard-library file manager comes before the file manager is constructed.
+// c11StartupOrder checks the start-up wiring in ../../manager.go textually: file.ClearFolders is called
+// with ConfigFolders before the file manager is constructed.
 func c11StartupOrder(t *testing.T) bool {
 	b, err := os.ReadFile(filepath.Join("..", "..", "manager.go"))
 	if err != nil {
 		t.Fatalf("C11 harness: cannot read static/manager.go: %v", err)
 	}
 	src := strings.Join(strings.Fields(string(b)), "")
-	i := strings.Index(src, "file.ClearFolders(file.NewStdLibOSFileManager(),ngxcfg.ConfigFolders)")
+	i := strings.Index(src, "file.ClearFolders(")
 	j := strings.Index(src, "file.NewManagerImpl(")
-	return i >= 0 && j >= 0 && i < j
+	if i < 0 || j < 0 || i > j {
+		return false
+	}
+	// the argument text of the call
+	depth, end := 0, -1
+	for k := i + len("file.ClearFolders"); k < len(src); k++ {
+		if src[k] == '(' {
+			depth++
+		} else if src[k] == ')' {
+			depth--
+			if depth == 0 {
+				end = k
+				break
+			}
+		}
+	}
+	return end > 0 && strings.Contains(src[i:end], "ConfigFolders")
 }
 
 // ---------------------------------------------------------------- generators
@@ -557,8 +571,8 @@ func TestVerifC11(t *testing.T) {
 	out.Extra("ignore_file_paths", ignoreFilePaths)
 	out.Extra("startup_clears_before_manager", c11StartupOrder(t))
 	if !c11StartupOrder(t) {
-		t.Fatalf("C11: internal/mode/static/manager.go no longer calls file.ClearFolders(file.NewStdLibOSFileManager(), " +
-			"ngxcfg.ConfigFolders) before it constructs the file manager")
+		t.Fatalf("C11: internal/mode/static/manager.go no longer calls file.ClearFolders(..., ConfigFolders) " +
+			"before it constructs the file manager: a restarted control plane does not empty the managed folders first")
 	}
 	dirs := []string{"/etc/nginx", c11Conf, c11Secrets, c11Incl, c11Main, c11Stream, c11Other}
 	for _, f := range folders {
@@ -588,7 +602,7 @@ func TestVerifC11(t *testing.T) {
 	}
 	world := c11In.def("zw", "world", vu.App("W", vu.List(fl), vu.List(ign), vu.N(cmode)))
 
-	emit := func(kind string, sc c11Scenario, h []c11Event, nfaults int) {
+	emit := func(kind string, sc c11Scenario, h []c11Event, _ int) {
 		obs, fired := c11Run(t, folders, sc.d0, dirs, h)
 		steps := make([]string, len(h))
 		human := make([]map[string]any, len(h))
@@ -611,7 +625,6 @@ func TestVerifC11(t *testing.T) {
 		out.Tally("events", strconv.Itoa(len(h)))
 		out.Tally("faults_fired", strconv.Itoa(fired))
 		out.Tally("recovered_after_failure", strconv.FormatBool(laterOK))
-		_ = nfaults
 	}
 
 	// corpus: the D17 witnesses (a write, resp. a chmod, of a key file fails; the listener is then removed)
@@ -703,6 +716,4 @@ func TestVerifC11(t *testing.T) {
 	out.Extra("scenarios", nScen)
 	out.Extra("scenarios_with_all_single_and_double_faults", exhaustive)
 	out.Close("C11.Check", strings.Join(c11In.defs, ""))
-	_ = errors.New
-	_ = fmt.Sprint
 }
